@@ -300,9 +300,10 @@ type InjectorFieldAccessStmt struct {
 }
 
 // Stmt generates: fieldVar := structVar.FieldName (or = when predeclared in async builds)
-func (stmt *InjectorFieldAccessStmt) Stmt(varPool *VarPool, _ *Injector, _ func(errExpr ast.Expr) []ast.Stmt) ([]ast.Stmt, []string) {
-	// Determine if we need to use = instead of := (when variables are predeclared in async builds)
-	useAssign := stmt.ReturnParam.WithChannel()
+func (stmt *InjectorFieldAccessStmt) Stmt(varPool *VarPool, injector *Injector, _ func(errExpr ast.Expr) []ast.Stmt) ([]ast.Stmt, []string) {
+	// Determine if we need to use = instead of := (variables are predeclared whenever
+	// the injector starts goroutines, exactly as for provider call statements)
+	useAssign := stmt.ReturnParam.WithChannel() || (injector != nil && hasChainStmts(injector))
 
 	tokenType := token.DEFINE
 	if useAssign {
